@@ -49,6 +49,7 @@ func upOps(second bool) []upOp {
 	if second {
 		ops = append(ops,
 			upOp{Q: "mutation ($f: Upload) { upload(f: $f) upload1(f: $f) }", Vars: map[string]interface{}{"f": nil}, Slots: []string{"variables.f"}},
+			upOp{Q: "mutation ($f: Upload) { upload(f: $f) plain1(s: \"f\") }", Vars: map[string]interface{}{"f": nil}, Slots: []string{"variables.f"}},
 			upOp{Q: "mutation ($f: Upload, $s: String) { upload(f: $f) plain1(s: $s) }", Vars: map[string]interface{}{"f": nil, "s": "str"}, Slots: []string{"variables.f"}},
 			upOp{Q: "mutation ($f: Upload) { upload1(f: $f) }", Vars: map[string]interface{}{"f": nil}, Slots: []string{"variables.f"}},
 			upOp{Q: "mutation ($o: UpIn) { uploadIn(in: $o) uploadIn1(in: $o) }", Vars: map[string]interface{}{"o": map[string]interface{}{"f": nil, "fs": []interface{}{nil, nil}, "s": "x"}},
